@@ -11,50 +11,54 @@ namespace PycModel.ClimbConcrete
 open PycModel PycModel.Climb PycModel.ClimbSim PycModel.View
 
 section
--- `Op n a ta`: the tokens `ta`, starting at stream position `n`, spell an operand with value `a`
-variable (Op : Nat → Val → List Tk → Prop)
+-- `Op n a ta fa`: the tokens `ta`, starting at stream position `n`, spell an operand with value `a`
+-- that the operand parser parses with fuel `fa`
+variable (Op : Nat → Val → List Tk → Nat → Prop)
 -- what may follow an operand for `OperandSpec` to apply (the operand parser looks one token ahead)
 variable (Follow : List Tk → Prop)
 
-/-- the abstract token list `ts` (operands and operator tokens) is spelled by the concrete tokens `toks` -/
-inductive Denotes : Nat → List PT → List Tk → Prop
-  | nil (n) : Denotes n [] []
-  | tk (n k v ts toks) : Denotes (n + 1) ts toks → Denotes n (.tk k v :: ts) ((k, v) :: toks)
-  | atom (n a ta ts toks) : Op n a ta → Follow toks → Denotes (n + ta.length) ts toks →
-      Denotes n (.atom a :: ts) (ta ++ toks)
+/-- the abstract token list `ts` (operands and operator tokens) is spelled by the concrete tokens
+`toks`; every operand needs at most `fuel0` -/
+inductive Denotes (fuel0 : Nat) : Nat → List PT → List Tk → Prop
+  | nil (n) : Denotes fuel0 n [] []
+  | tk (n k v ts toks) : Denotes fuel0 (n + 1) ts toks → Denotes fuel0 n (.tk k v :: ts) ((k, v) :: toks)
+  | atom (n a ta fa ts toks) : Op n a ta fa → fa ≤ fuel0 → Follow toks → Denotes fuel0 (n + ta.length) ts toks →
+      Denotes fuel0 n (.atom a :: ts) (ta ++ toks)
 
-def SeesPT (s : PState) (ts : List PT) : Prop := ∃ toks, SeesT s toks ∧ Denotes Op Follow s.idx ts toks
+/-- `N`: total number of tokens of the input (`s.idx + remaining = N` is invariant) -/
+def SeesPT (fuel0 N : Nat) (s : PState) (ts : List PT) : Prop :=
+  ∃ toks, SeesT s toks ∧ Denotes Op Follow fuel0 s.idx ts toks ∧ s.idx + toks.length = N
 
 /-- the operand parser parses operands: consumes exactly their tokens, returns their value -/
-def OperandSpec (fuel0 : Nat) : Prop :=
-  ∀ fuel s a ta rest, fuel0 ≤ fuel → Op s.idx a ta → Follow rest → SeesT s (ta ++ rest) →
+def OperandSpec : Prop :=
+  ∀ fuel s a ta fa rest, fa ≤ fuel → Op s.idx a ta fa → Follow rest → SeesT s (ta ++ rest) →
     ∃ s', run fuel .castExpression s = .ok a s' ∧ SeesT s' rest ∧ s'.idx = s.idx + ta.length
 
-theorem iface (fuel0 : Nat) (hop : OperandSpec Op Follow fuel0) : Iface (SeesPT Op Follow) fuel0 where
+theorem iface (fuel0 N : Nat) (hop : OperandSpec Op Follow) : Iface (SeesPT Op Follow fuel0 N) fuel0 where
   peek_tk := by
-    intro s k v ts ⟨toks, hs, hd⟩
+    intro s k v ts ⟨toks, hs, hd, hN⟩
     cases hd with
     | tk _ _ _ _ toks' hd' =>
-      obtain ⟨s', hp, hs', _, hidx⟩ := peek_spec s k v toks' hs
-      exact ⟨s', s.idx, hp, _, hs', by rw [hidx]; exact .tk _ _ _ _ _ hd'⟩
+      obtain ⟨s', hp, hs', _, hidx, _⟩ := peek_spec s k v toks' hs
+      exact ⟨s', s.idx, hp, _, hs', by rw [hidx]; exact .tk _ _ _ _ _ hd', by rw [hidx]; exact hN⟩
   peek_nil := by
-    intro s ⟨toks, hs, hd⟩
+    intro s ⟨toks, hs, hd, hN⟩
     cases hd with
     | nil =>
-      obtain ⟨s', hp, hs', _, hidx⟩ := peek_end s hs
-      exact ⟨s', hp, _, hs', by rw [hidx]; exact .nil _⟩
+      obtain ⟨s', hp, hs', _, hidx, _⟩ := peek_end s hs
+      exact ⟨s', hp, _, hs', by rw [hidx]; exact .nil _, by rw [hidx]; exact hN⟩
   adv_tk := by
-    intro s k v ts ⟨toks, hs, hd⟩
+    intro s k v ts ⟨toks, hs, hd, hN⟩
     cases hd with
     | tk _ _ _ _ toks' hd' =>
-      obtain ⟨s', hp, hs', _, hidx⟩ := advance_spec s k v toks' hs
-      exact ⟨s', s.idx, hp, _, hs', by rw [hidx]; exact hd'⟩
+      obtain ⟨s', hp, hs', _, hidx, _⟩ := advance_spec s k v toks' hs
+      exact ⟨s', s.idx, hp, _, hs', by rw [hidx]; exact hd', by rw [hidx]; simp at hN; omega⟩
   operand := by
-    intro fuel s a ts hf ⟨toks, hs, hd⟩
+    intro fuel s a ts hf ⟨toks, hs, hd, hN⟩
     cases hd with
-    | atom _ _ ta _ toks' ho hfo hd' =>
-      obtain ⟨s', hr, hs', hidx⟩ := hop fuel s a ta toks' hf ho hfo hs
-      exact ⟨s', hr, _, hs', by rw [hidx]; exact hd'⟩
+    | atom _ _ ta fa _ toks' ho hfa hfo hd' =>
+      obtain ⟨s', hr, hs', hidx⟩ := hop fuel s a ta fa toks' (by omega) ho hfo hs
+      exact ⟨s', hr, _, hs', by rw [hidx]; exact hd', by rw [hidx]; simp at hN; omega⟩
 end
 
 end PycModel.ClimbConcrete
